@@ -2,9 +2,60 @@ package main
 
 import (
 	"fmt"
+	"sort"
+	"strings"
 
 	"semtest/sem"
 )
+
+// a Go implementation of sem.Sink that records its calls (the Gallina model is sink_put)
+type recSink struct{ log []string }
+
+func (s *recSink) Put(b []byte, n int) error {
+	s.log = append(s.log, "("+bs(cp(b))+", "+z(int64(n))+")")
+	if n == 0 {
+		return errShort
+	}
+	return nil
+}
+func (s *recSink) st() string { return "[" + strings.Join(s.log, "; ") + "]" }
+
+func keyList(ks []string) string {
+	var p []string
+	for _, k := range ks {
+		p = append(p, bs([]byte(k)))
+	}
+	return "[" + strings.Join(p, "; ") + "]"
+}
+
+// the keys of m: those in `seen` first (in that order), then the others
+func orderFrom(m map[string]string, seen []string) []string {
+	in := map[string]bool{}
+	var out []string
+	for _, k := range seen {
+		if _, ok := m[k]; ok && !in[k] {
+			in[k] = true
+			out = append(out, k)
+		}
+	}
+	var rest []string
+	for k := range m {
+		if !in[k] {
+			rest = append(rest, k)
+		}
+	}
+	sort.Strings(rest)
+	return append(out, rest...)
+}
+
+func strMapLit(m map[string]string) string {
+	var ks []string
+	for k := range m {
+		ks = append(ks, k)
+	}
+	sort.Strings(ks)
+	return mapLit(m, ks)
+}
 
 // phase 3: switch without a tag, sub-slices handed to storing callees, same-receiver calls
 func phase3() {
@@ -64,6 +115,164 @@ func phase3() {
 		ex(fmt.Sprintf("g_sem_BumpLoop %s true 0 (nil : bytes) %s", F, z(int64(k%7))), func() string {
 			var p *sem.Acc
 			r := p.BumpLoop(k % 7)
+			return "(0, (nil : bytes), " + z(int64(r)) + ")"
+		})
+	}
+}
+
+func phase3b() {
+	strMaps := []map[string]string{nil, {}, {"a": "xx"}, {"a": "xx", "b": "yy"}, {"a": "11", "b": "22", "c": "33", "d": "44", "e": "55"}}
+	for _, m := range strMaps {
+		for _, skip := range []string{"", "a", "c", "q"} {
+			m, skip := m, skip
+			// run Go first: the order it used is read off the result (keys are 1 byte, values 2 bytes)
+			out, n := sem.RangeConcat(m, skip)
+			var seen []string
+			for i := 0; i+3 <= len(out); i += 3 {
+				seen = append(seen, out[i:i+1])
+			}
+			ord := orderFrom(m, seen)
+			ex(fmt.Sprintf("g_sem_RangeConcat %s %s %s", strMapLit(m), bs([]byte(skip)), keyList(ord)), func() string {
+				return "(" + bs([]byte(out)) + ", " + z(int64(n)) + ")"
+			})
+			s2, n2 := sem.RangeCaller(m)
+			var seen2 []string
+			for i := 0; i+3 <= len(s2)-1; i += 3 {
+				seen2 = append(seen2, s2[i:i+1])
+			}
+			ex(fmt.Sprintf("g_sem_RangeCaller %s %s", strMapLit(m), keyList(orderFrom(m, seen2))), func() string {
+				return "(" + bs([]byte(s2)) + ", " + z(int64(n2)) + ")"
+			})
+		}
+		for _, m2 := range strMaps {
+			m, m2 := m, m2
+			out := sem.RangeTwo(m, m2)
+			var seenA, seenB []string
+			for i := 0; i < len(m) && i < len(out); i++ {
+				seenA = append(seenA, out[i:i+1])
+			}
+			if len(m) != 2 {
+				byVal := map[string]string{}
+				for k, v := range m2 {
+					byVal[v] = k
+				}
+				for i := len(m); i+2 <= len(out); i += 2 {
+					seenB = append(seenB, byVal[out[i:i+2]])
+				}
+			}
+			ex(fmt.Sprintf("g_sem_RangeTwo %s %s %s %s", strMapLit(m), strMapLit(m2), keyList(orderFrom(m, seenA)), keyList(orderFrom(m2, seenB))), func() string {
+				return bs([]byte(out))
+			})
+		}
+	}
+	intMaps := []map[uint16]string{nil, {}, {7: "a"}, {7: "a", 9: "b", 300: "c", 1: "d"}}
+	for _, m := range intMaps {
+		for _, stop := range []uint16{0, 7, 300} {
+			for _, ret := range []uint16{0, 9, 1} {
+				m, stop, ret := m, stop, ret
+				out, done := sem.RangeStop(m, stop, ret)
+				// visited keys: out = k1 v1 k2 v2 ... k_last [255]; keys are identified by their low byte
+				var ord []uint16
+				in := map[uint16]bool{}
+				body := out
+				if !done && len(body) > 0 {
+					body = body[:len(body)-1]
+				}
+				for i := 0; i < len(body); i += 2 {
+					for k := range m {
+						if byte(k) == body[i] && !in[k] {
+							in[k] = true
+							ord = append(ord, k)
+						}
+					}
+				}
+				var rest []int
+				for k := range m {
+					if !in[k] {
+						rest = append(rest, int(k))
+					}
+				}
+				sort.Ints(rest)
+				for _, k := range rest {
+					ord = append(ord, uint16(k))
+				}
+				var ks, es []string
+				for _, k := range ord {
+					ks = append(ks, z(int64(k)))
+				}
+				var all []int
+				for k := range m {
+					all = append(all, int(k))
+				}
+				sort.Ints(all)
+				for _, k := range all {
+					es = append(es, "("+z(int64(k))+", "+bs([]byte(m[uint16(k)]))+")")
+				}
+				lit := "(None : gmap Z bytes)"
+				if m != nil {
+					lit = "(Some [" + strings.Join(es, "; ") + "] : gmap Z bytes)"
+				}
+				ex(fmt.Sprintf("g_sem_RangeStop %s %d %d [%s]", lit, stop, ret, strings.Join(ks, "; ")), func() string {
+					return "(" + bs(out) + ", " + bl(done) + ")"
+				})
+			}
+		}
+	}
+	// nil interface values
+	for _, n := range []int{0, 1, 2, 4, 7, 9} {
+		for _, v := range [][]byte{nil, {1}, {1, 2}, {1, 2, 3}, {9, 8, 7, 6}} {
+			n, v := n, v
+			mk := func() []byte {
+				b := make([]byte, n)
+				for i := range b {
+					b[i] = byte(50 + i)
+				}
+				return b
+			}
+			ex(fmt.Sprintf("g_sem_SinkWrite (list (bytes * Z)) sink_put %s false [] %s", bs(mk()), bs(v)), func() string {
+				b, s := mk(), &recSink{}
+				r := sem.SinkWrite(b, s, v)
+				return "(" + bs(b) + ", " + s.st() + ", " + z(int64(r)) + ")"
+			})
+			ex(fmt.Sprintf("g_sem_SinkWrite (list (bytes * Z)) sink_put %s true [] %s", bs(mk()), bs(v)), func() string {
+				b := mk()
+				r := sem.SinkWrite(b, nil, v)
+				return "(" + bs(b) + ", [], " + z(int64(r)) + ")"
+			})
+			ex(fmt.Sprintf("g_sem_SinkTwice (list (bytes * Z)) sink_put %s false [] %s", bs(mk()), bs(v)), func() string {
+				b, s := mk(), &recSink{}
+				r := sem.SinkTwice(b, s, v)
+				return "(" + bs(b) + ", " + s.st() + ", " + z(int64(r)) + ")"
+			})
+			ex(fmt.Sprintf("g_sem_SinkNil %s %s", bs(mk()), bs(v)), func() string {
+				b := mk()
+				r := sem.SinkNil(b, v)
+				return "(" + bs(b) + ", " + z(int64(r)) + ")"
+			})
+		}
+	}
+	for _, v := range [][]byte{nil, {1, 2, 3}, {9, 8, 7, 6}} {
+		v := v
+		ex(fmt.Sprintf("g_sem_SinkUse (list (bytes * Z)) sink_put false [] %s", bs(v)), func() string {
+			s := &recSink{}
+			r := sem.SinkUse(s, v)
+			return "(" + s.st() + ", " + z(int64(r)) + ")"
+		})
+		ex(fmt.Sprintf("g_sem_SinkUse (list (bytes * Z)) sink_put true [] %s", bs(v)), func() string {
+			r := sem.SinkUse(nil, v)
+			return "([], " + z(int64(r)) + ")"
+		})
+	}
+	for _, k := range []int{-3, 0, 5} {
+		k := k
+		ex(fmt.Sprintf("g_sem_NilSafe false 5 %s %s", bs([]byte("s")), z(int64(k))), func() string {
+			p := &sem.Acc{A: 5, S: "s"}
+			r := p.NilSafe(k)
+			return "(" + z(int64(p.A)) + ", " + bs([]byte(p.S)) + ", " + z(int64(r)) + ")"
+		})
+		ex(fmt.Sprintf("g_sem_NilSafe true 0 (nil : bytes) %s", z(int64(k))), func() string {
+			var p *sem.Acc
+			r := p.NilSafe(k)
 			return "(0, (nil : bytes), " + z(int64(r)) + ")"
 		})
 	}
